@@ -31,6 +31,10 @@ R_FLOW = _rule("R-FLOW", "r_flow")
 R_CAP = _rule("R-CAP", "r_cap", all_for=("C07",))
 R_RING = _rule("R-RING", "r_cap", "ring_obligations", all_for=("C07",))
 R_WRAP = _rule("R-WRAP", "r_cap", "wrap_obligations")
+R_ZOF = _rule("R-ZOF", "zof")
+R_BIND = _rule("R-BIND", "r_bind")
+_ZOFTXT = ("R-ZOF (zero-on-failure dataflow `zof`): the listed output objects are all-zero at every return that can yield 0 "
+           "(lattice Z / C(v) / untouched / unknown with branch facts and bottom-up helper summaries). ")
 
 DECODE = [R_CHK, R_OBL, R_RED]
 BOUNDS = [R_CAP, R_RING, R_WRAP]
@@ -54,21 +58,22 @@ def _prop(pid, rules, explanation, not_decided, **kw):
     PROPERTIES[pid] = d
 
 
+_BINDTXT = "R-BIND: point comparisons compare the full point (x-only primitive only in the ECDSA equation; .x/.y comparisons paired; listed verifiers keep their full-point equality). "
 _DEC = ("R-CHK: the failure indicator of every fallible decode (overflow flag / zero return) reaches a branch or the verdict on every path "
         "before it is overwritten; R-OBL: each untrusted parameter is still consumed by the decoders and validity tests frozen in "
         "tables/obligations.json (interprocedural parameter-rooted value flow); R-RED: raw caller bytes are decoded by reduction only in listed roles. ")
 
-_prop("C01", DECODE + [R_FLOW],
+_prop("C01", DECODE + [R_FLOW, R_ZOF, R_BIND],
       "ECDSA: " + _DEC + "R-FLOW: RFC 6979 is keyed with the scalar-decoded message, never the raw bytes. Recovery module analysed although the pinned build omits it.",
       "that the equation computed is the ECDSA equation; low-S of produced signatures; RFC 6979 byte-exactness; recover(sign) == pubkey (all 256-bit arithmetic)")
-_prop("C02", DECODE + [R_FLOW],
+_prop("C02", DECODE + [R_FLOW, R_ZOF],
       "BIP-340: " + _DEC + "R-FLOW: msg/msglen flow unmodified from sign_custom / verify through sign_internal and the challenge into sha256_write; "
       "sha256_write's cursor discipline.",
       "byte-for-byte equality with BIP-340, aux=NULL == zero aux, exact acceptance set (hash and curve arithmetic)")
-_prop("C03", DECODE,
+_prop("C03", DECODE + [R_ZOF],
       "Encodings: " + _DEC,
       "the DER grammar itself (minimal-length / padding predicates over byte values), hybrid parity rule, round-trip equalities")
-_prop("C04", DECODE + [R_FLOW],
+_prop("C04", DECODE + [R_FLOW, R_ZOF],
       "Key algebra: " + _DEC + "R-FLOW: n_pubkeys and the array reach secp256k1_hsort unmodified.",
       "commutation of secret and public operations, correctness of heap sort beyond its length argument, lexicographic order")
 _prop("C05", [R_FLOW],
@@ -83,7 +88,7 @@ _prop("C07", BOUNDS,
       "general in-bounds / UB-freedom of the proof verifiers (needs relational invariants such as npub = sum rsizes <= 128, outside the interval domain: "
       "the unprovable sites are listed in the evidence as not armed); termination; leak-freedom and callback reachability are decided by separate rules when registered",
       assumptions=["distinct pointer parameters do not alias", "summaries: secp256k1_count_bits_set(d, c) in [0, 8c]; clz/ctz ranges"])
-_prop("C08", DECODE,
+_prop("C08", DECODE + [R_BIND],
       "Pedersen: " + _DEC,
       "that the commitment is bG + vH, tally semantics, round-trips")
 _prop("C09", DECODE + BOUNDS,
@@ -95,13 +100,21 @@ _prop("C10", DECODE + BOUNDS,
 _prop("C11", DECODE + BOUNDS,
       "Surjection proofs: " + _DEC,
       "subset selection correctness, the ring equation")
-_prop("C12", DECODE + [R_FLOW],
+_prop("C12", DECODE + [R_FLOW, R_ZOF, R_BIND],
       "MuSig2: " + _DEC,
       "equality with the BIP-327 functions, session validity, adapt/extract inverse (algebra)")
-_prop("C14", DECODE,
+_prop("C13", [R_ZOF, R_CHK, R_OBL, R_BIND],
+      "MuSig secnonce single use (typestate over call histories, decided on the two functions that implement it): " + _ZOFTXT +
+      "Instances: *secnonce is all-zero at EVERY return of partial_sign after its own NULL check (incl. every later ARG_CHECK return); "
+      "secnonce is zero on every failing return of nonce_gen / nonce_gen_counter (through nonce_gen_internal and secnonce_invalidate); "
+      "session_secrand32 is zero whenever nonce_gen succeeds. R-OBL: the all-zero test of the stored nonce and of session_secrand32 are still "
+      "reachable; R-CHK: the key-validity decode in nonce generation reaches the verdict. Induction over histories: an all-zero secnonce stays "
+      "unusable until a successful nonce_gen and every partial_sign that touches it leaves it all-zero.",
+      "that secp256k1_memzero_explicit is not optimised away (compiler property)")
+_prop("C14", DECODE + [R_ZOF, R_BIND],
       "ECDSA adaptor: " + _DEC,
       "the adaptor and DLEQ equations, recover(decrypt) identity")
-_prop("C15", DECODE,
+_prop("C15", DECODE + [R_ZOF],
       "Sign-to-contract / anti-exfil: " + _DEC,
       "equality of the two nonce derivations' values, soundness of the commitment")
 _prop("C16", DECODE + BOUNDS,
@@ -110,9 +123,9 @@ _prop("C16", DECODE + BOUNDS,
 _prop("C17", DECODE + BOUNDS,
       "Half-aggregation: " + _DEC,
       "the aggregate equation, incremental == one-shot equality (arithmetic over 256-bit values)")
-_prop("C18", DECODE,
+_prop("C18", DECODE + [R_ZOF],
       "ECDH / ElligatorSwift: " + _DEC,
       "agreement of both parties, the map and its inverse (field arithmetic)")
-_prop("C19", DECODE,
+_prop("C19", DECODE + [R_BIND],
       "Bulletproofs++: " + _DEC,
       "completeness / soundness of the norm argument, generator determinism")
